@@ -84,6 +84,8 @@ type Program struct {
 
 	cgOnce sync.Once
 	cg     *callgraph.Graph
+	mfOnce sync.Once
+	mf     []*ssa.Function
 
 	fileOf map[*token.File]*ast.File
 }
@@ -321,22 +323,49 @@ func (p *Program) CallGraph() *callgraph.Graph {
 	return p.cg
 }
 
-// ModuleFuncs returns every ssa function (incl. anonymous and init) whose
-// package belongs to the module and that has a body or is an assembly stub,
-// sorted by name.
+// ModuleFuncs returns every ssa function declared in the module: all
+// declared functions and methods (whether or not anything calls them),
+// package initialisers, and the anonymous functions nested in them; sorted by
+// name.  Assembly declarations are included (no Blocks).
 func (p *Program) ModuleFuncs() []*ssa.Function {
-	var out []*ssa.Function
-	for fn := range ssautil.AllFunctions(p.SSA) {
-		if fn.Pkg == nil || !IsModule(fn.Pkg.Pkg) {
-			continue
+	p.mfOnce.Do(func() {
+		seen := map[*ssa.Function]bool{}
+		var add func(fn *ssa.Function)
+		add = func(fn *ssa.Function) {
+			if fn == nil || seen[fn] {
+				return
+			}
+			seen[fn] = true
+			p.mf = append(p.mf, fn)
+			for _, a := range fn.AnonFuncs {
+				add(a)
+			}
 		}
-		if fn.Synthetic != "" && fn.Name() != "init" {
-			continue
+		for _, pk := range p.Pkgs {
+			var objs []*types.Func
+			for _, obj := range pk.TypesInfo.Defs {
+				if f, ok := obj.(*types.Func); ok {
+					objs = append(objs, f)
+				}
+			}
+			sort.Slice(objs, func(i, j int) bool { return objs[i].Pos() < objs[j].Pos() })
+			for _, f := range objs {
+				if f.Name() == "init" || f.Name() == "_" {
+					continue // source-level init functions are reached through the package initialiser below
+				}
+				add(p.SSA.FuncValue(f))
+			}
+			if sp := p.ssaPkgs[pk.Types]; sp != nil {
+				for name, m := range sp.Members {
+					if fn, ok := m.(*ssa.Function); ok && (name == "init" || strings.HasPrefix(name, "init#")) {
+						add(fn)
+					}
+				}
+			}
 		}
-		out = append(out, fn)
-	}
-	sort.Slice(out, func(i, j int) bool { return out[i].String() < out[j].String() })
-	return out
+		sort.Slice(p.mf, func(i, j int) bool { return p.mf[i].String() < p.mf[j].String() })
+	})
+	return p.mf
 }
 
 // Pos formats a position relative to the repository root.
